@@ -67,4 +67,34 @@ CLAIMED["C07"] = {
     "note": TRUST + " Valid event timestamps are taken to lie in [0, SIMTIME_MAX].",
 }
 
+CLAIMED["C03"] = {
+    "technique": "path-condition relation analysis (order relations allowed on every CFG path to the reclaiming call), value-flow equality (returned frontier = loop bound = truncation amount), index-loop shape recogniser, ownership table by path conditions",
+    "text": ("Decided on every run: on every path to the reclaiming calls the entry's timestamp is STRICTLY below the round's GVT (fossil scan and "
+             "deferred message release), and the frontier variable is written only from the round's value; the freeing loop visits every index "
+             "below the allocator's returned frontier exactly once, before the history is truncated by that same value; the allocator is told "
+             "'newest committed index + 1'; local-sent entries are never freed by the LP that sent them. NOT decided: that the committed events "
+             "equal, in order and content, a prefix of the sequential history — that is a fact about schedules and runtime values."),
+    "note": TRUST,
+}
+CLAIMED["C04"] = {
+    "technique": "CFG dominance (accumulate-before-use), order-type evaluation of the accumulator, fold-shape recogniser for the two peeks, atomic memory-order floors keyed by switch case, must-count path rules on MPI send/receive, elected-caller rule on RMW results",
+    "text": ("Decided on every run: gvt_on_msg_extraction(msg->dest_t) dominates every later operation of process_msg and is a running minimum "
+             "for all order types; both per-round minima fold a fresh msg_queue_time_peek() with the accumulator, which is reset only at round "
+             "start; the five consumers run once per completed round under value != 0 with the single value gvt_phase_run returned; each MPI_Isend "
+             "of a message buffer is dominated by the matching stamp-and-count helper for the same destination and each MPI_Mrecv is followed by "
+             "exactly one receive count of the matching kind on every path; five memory-order floors on c_b / c_c; reclamation is strictly below "
+             "GVT; both collectives are entered only on the equality side of an RMW-result test. NOT decided: monotonicity and safety of the "
+             "computed value under all interleavings of the reduction with message traffic, nor its equality across ranks."),
+    "note": TRUST + " Floors are derived from the plain data each counter publishes; relaxed counters have no floor.",
+}
+CLAIMED["C13"] = {
+    "technique": "shape recognisers + path-condition relation analysis + value-flow equality over the checkpoint-log functions (unknown shapes are inconclusive)",
+    "text": ("Decided on every run: in the checkpoint-log collection the scan can only stop at ref_i <= frontier, the returned value always mirrors "
+             "logs[kept].ref_i, every kept entry is re-based by exactly that value, the log is truncated by the kept index and only older "
+             "checkpoints are freed; the history side passes 'newest committed index + 1', scans strictly below GVT and truncates by the returned "
+             "value; restore starts from the newest entry, can only stop at ref_i <= target, returns that entry's own ref_i, frees only newer "
+             "entries and cuts the log right after it. NOT decided: the state actually obtained by a rollback after a collection."),
+    "note": TRUST,
+}
+
 NOT_APPLICABLE = {}
